@@ -13,12 +13,12 @@ def mc_runs(quick):
 
 
 def scen(quick):
-    return ["--waveform", 5 if quick else 40, "--romload", 8 if quick else 60]
+    return ["--waveform", 8 if quick else 40, "--romload", 8 if quick else 60]
 
 
 def rule(quick, shards):
-    return (f"{shards} shards x {5 if quick else 40} tapes of 1..3 blocks (2..40 bytes, flag 0x00 and others, all bit patterns) played to the "
-            f"automatic stop with random steps 0..16 T: one event per edge; plus {8 if quick else 60} tapes loaded by the ROM's LD-BYTES in real time "
+    return (f"{shards} shards x {8 if quick else 40} tapes of 1..3 blocks (2..40 bytes, flag 0x00 and others, all bit patterns) played to the "
+            f"automatic stop under every step policy (uniform 0..16, constant 1..16, 12..16, mostly 16, machine-like <= 8): one event per edge; plus {8 if quick else 60} tapes loaded by the ROM's LD-BYTES in real time "
             "(requests issued in the pause), 48K and 128K")
 
 
